@@ -2250,4 +2250,31 @@ M("s13-shift-amount-one-node", "C05", "fire S13", "src/check.rs",
 M("t3-shift-amount-constrain-only", "C17", "fire T3", "src/check.rs",
   """                    check_type(&mut y, &Type::Unsigned(UnsignedNumType::U8))?;""",
   """                    constrain_type(&mut y, &Type::Unsigned(UnsignedNumType::U8))?;""", "shift amount only constrained, never compared: `a << (x == y)` is accepted")
+REVERT("revert-collection-retyping", "C05", "fire S14", "f62b0b4", "pre-fix tree: collections of untyped numbers re-typed in place to any element type")
+REVERT("revert-compile-const-sizes", "C09", "fire L12", "a75818f", "pre-fix tree: compile() builds a GarbleProgram with empty const_sizes")
+M("s14-any-width-in-collection", "C05", "fire S14", "src/check.rs",
+  """                if actual == &Type::Unsigned(UnsignedNumType::Unspecified)
+                    && (same_width || !in_collection)
+                {""",
+  """                if actual == &Type::Unsigned(UnsignedNumType::Unspecified)
+                    && (same_width || !in_collection || true)
+                {""", "unsigned element types of any width are taken on inside collections")
+M("s14-recursion-forgets-flag", "C05", "fire S14", "src/check.rs",
+  """                    for (expected, actual) in expected.iter().zip(actual.iter_mut()) {
+                        overwrite_ty_if_necessary(actual, expected, true);
+                    }""",
+  """                    for (expected, actual) in expected.iter().zip(actual.iter_mut()) {
+                        overwrite_ty_if_necessary(actual, expected, in_collection);
+                    }""", "tuple fields are re-typed with the caller's flag: fields of a top-level tuple count as numbers of their own")
+M("s14-quiet-width-by-helper-match", "C05", "quiet", "src/check.rs",
+  """        let same_width = matches!(
+            expected,
+            Type::Unsigned(UnsignedNumType::U32 | UnsignedNumType::Usize)
+                | Type::Signed(SignedNumType::I32)
+        );""",
+  """        let same_width = match expected {
+            Type::Unsigned(n) => matches!(n, UnsignedNumType::Usize | UnsignedNumType::U32),
+            Type::Signed(n) => matches!(n, SignedNumType::I32),
+            _ => false,
+        };""", "behaviour-preserving: the width test written as a match")
 
